@@ -81,8 +81,10 @@ def write_market(directory, market):
             target = os.path.join(directory, 'src2')
             os.makedirs(target, exist_ok=True)
             name = sym[:-2]
+        # a fifth element is the row's adjustment ratio: Adj Close = Close x ratio (default: Adj Close = Close)
         mk.write_csv(target, name, [(r[0], None if r[1] is None else float(r[1]), None if r[2] is None else float(r[2]),
-                                     None if r[2] is None else float(r[2])) + tuple(r[3:4]) for r in rows])
+                                     None if r[2] is None else float(r[2]) * (float(r[4]) if len(r) > 4 else 1.0))
+                                    + tuple(r[3:4]) for r in rows])
 
 
 def load_handler(directory, market, universe=None):
